@@ -62,7 +62,14 @@ Additions of the loop ties of C03 / C20 (marked `[loop ties C03]` / `[loop ties 
                `T['col'] = [E for row in T.itertuples(index=False)]` read per row as `T['col'] = E` (cells are `row.<column>`);
                [loop ties C09] `T = T.assign(c1=v1, ..)` with constant / plain-name values read as `T['c1'] = v1; ..`; a load
                `T.loc[mask, 'col']` is `T['col'][mask]`;
-               an `if` of assignments none of which is read afterwards is refused (it used to end in an IndexError)"""
+               an `if` of assignments none of which is read afterwards is refused (it used to end in an IndexError)
+
+Additions of the loop ties of wave e4 (C14 / C16 / C07; marked `[loop ties e4]`; additive, fail-closed):
+  expressions: `s in L` / `s not in L` with L a declared list of strings (LS) and s a str: Base/Str.v mem_string
+  statements : `L.remove(x)` on an LS name with x a str: L without its first item equal to x (a closed local fixpoint; the
+               ValueError of an absent x is a recorded error path);
+               `if x is None: x = d` on an optional boolean x with d itself an optional boolean: x stays optional -- its own
+               value when it has one, else d's (a plain-boolean d narrows x as before)"""
 import ast, os, sys, glob, importlib.util
 from fractions import Fraction
 
